@@ -282,7 +282,7 @@ func (w *pedWorld) mutate(p *party, pkt pdkg.Packet) []pdkg.Packet {
 			resign = true
 		}
 		if p.beh["deal-wrong-session"] {
-			b.SessionID = t.Bytes("byz.val", 32)
+			b.SessionID = t.OtherBytes("byz.val", w.nonce, 32)
 			w.fatal[me] = "wrong session id in deal bundle"
 			w.info.ByzFired("deal-wrong-session")
 			resign = true
@@ -375,7 +375,7 @@ func (w *pedWorld) mutate(p *party, pkt pdkg.Packet) []pdkg.Packet {
 			w.info.ByzFired("just-index-outside")
 		}
 		if p.beh["just-wrong-session"] {
-			b.SessionID = t.Bytes("byz.val", 32)
+			b.SessionID = t.OtherBytes("byz.val", w.nonce, 32)
 			w.badJustify[me] = true
 			w.info.ByzFired("just-wrong-session")
 		}
@@ -438,7 +438,7 @@ func (w *pedWorld) mutateResp(p *party, b *pdkg.ResponseBundle) []pdkg.Packet {
 		w.info.ByzFired("resp-unknown-dealer")
 	}
 	if p.beh["resp-wrong-session"] {
-		b.SessionID = t.Bytes("byz.val", 32)
+		b.SessionID = t.OtherBytes("byz.val", w.nonce, 32)
 		w.holderOut[me] = "response bundle with wrong session id"
 		w.info.ByzFired("resp-wrong-session")
 	}
@@ -500,6 +500,7 @@ func (w *pedWorld) config(p *party) *pdkg.Config {
 		return out
 	}
 	c.NewNodes = cp(w.newNodes)
+	c.Log = &simLogger{w: w, id: p.id}
 	if w.reshare {
 		c.OldNodes = cp(w.oldNodes)
 		c.OldThreshold = uint32(w.oldT)
@@ -1129,6 +1130,38 @@ func (w *pedWorld) check() *core.Violation {
 			ok = match
 		}
 		if !ok {
+			// diagnostic: which dealer set does reproduce the output?
+			var all []uint32
+			for _, n := range w.oldNodes {
+				if len(w.dealsSent[n.Index]) >= 1 && len(w.dealsSent[n.Index][0].Public) == w.newT {
+					all = append(all, n.Index)
+				}
+			}
+			diag := "no subset of the dealers with an authentic bundle reproduces it"
+			for mask := 1; mask < 1<<len(all); mask++ {
+				var set []uint32
+				for b, a := range all {
+					if mask&(1<<b) != 0 {
+						set = append(set, a)
+					}
+				}
+				if len(set) != w.oldT {
+					continue
+				}
+				match := true
+				for k := 0; k < w.newT && match; k++ {
+					acc := g.Point().Null()
+					for _, a := range set {
+						acc = g.Point().Add(acc, g.Point().Mul(kit.BigScalar(g, lagrangeWeight(set, a)), w.dealsSent[a][0].Public[k]))
+					}
+					match = acc.Equal(ref.res.Key.Commits[k])
+				}
+				if match {
+					diag = fmt.Sprintf("it is the interpolation over dealers %v", set)
+					break
+				}
+			}
+			info.Logf("reshare dealer-set diagnostic: %s", diag)
 			return pviol("membership", "membership/reshare-dealer-set/"+vn, "output polynomial is not the interpolation over the lowest %d dealers of {honest live dealers %v} plus any subset of the ambiguous ones %v", w.oldT, must, amb)
 		}
 		info.Probe("reshare-dealer-set-checked")
@@ -1172,4 +1205,20 @@ func sanitizeWhy(s string) string {
 		}
 	}
 	return string(out)
+}
+
+// simLogger routes kyber's own DKG log lines into the run's event log (they are
+// part of the deterministic trace and make replays readable).
+type simLogger struct {
+	w  *pedWorld
+	id int
+}
+
+func (l *simLogger) Info(keyvals ...any)  { l.w.logNode(l.id, "info", keyvals) }
+func (l *simLogger) Error(keyvals ...any) { l.w.logNode(l.id, "error", keyvals) }
+
+func (w *pedWorld) logNode(id int, lvl string, kv []any) {
+	w.mu.Lock()
+	defer w.mu.Unlock()
+	w.info.Logf("      [p%d %s] %v", id, lvl, kv)
 }
